@@ -200,14 +200,11 @@ def run_history(res, cfg, scratch, rng, hidx, kill_budget):
             with ioproxy.Installed(hub):
                 # the handle held by the open database predates the proxies: rewrap it
                 st = s.db.storage
-                raw = st._handle
-                st._handle = ioproxy.FileProxy(hub, raw, "primary")
+                ioproxy.wrap_open_handles(hub, st)
                 try:
                     out = s.do(op)
                 finally:
-                    h = st._handle
-                    if isinstance(h, ioproxy.FileProxy):
-                        st._handle = h._f
+                    ioproxy.unwrap_handles(st)
             mon.final()
             hub.monitor = ioproxy.NullMonitor()
             res.count(f"ops.{op['op']}")
@@ -261,12 +258,11 @@ def run_large_file(res, cfg, scratch, rng):
             hub.k = 0
             with ioproxy.Installed(hub):
                 st = s.db.storage
-                st._handle = ioproxy.FileProxy(hub, st._handle, "primary")
+                ioproxy.wrap_open_handles(hub, st)
                 try:
                     out = s.do(op)
                 finally:
-                    if isinstance(st._handle, ioproxy.FileProxy):
-                        st._handle = st._handle._f
+                    ioproxy.unwrap_handles(st)
             mon.final()
             hub.monitor = ioproxy.NullMonitor()
             res.count("large_file_ops")
